@@ -58,3 +58,41 @@ def c04_attribution(f, sig, mech, out, detail, rel=0.0):
     if res and ref_dense.compare(exp, res, 0, end, same) is None and res[0][0] == 0:
         return 'D-dense-origin'
     return None
+
+
+def c05_attribution(f, sig, sched, mech, detail, pastify=False):
+    """Only the pastifier's open finding (C03 D-past-over-future) is known for the dense online
+    monitor: precondition = the spec was pastified and a stateful past operator sits above an
+    operand with look-ahead; only value disagreements are attributed (never exceptions/order)."""
+    from rtverif import pastmodel
+    if pastify and mech == 'value' and pastmodel.past_over_future(f):
+        return 'D-past-over-future'
+    if mech == 'value' and not pastify:
+        return c05_origin(f, sig, sched)
+    return None
+
+
+def c05_origin(f, sig, sched):
+    """D-dense-origin, online flavour: bounded past operators open their initial empty-window piece
+    only when the first stamp is exactly 0.  Attributed if the signals start later than 0 AND the
+    same schedule on the signals shifted to start at 0 agrees with the reference everywhere."""
+    from rtverif import ref_dense, ref_discrete, lang
+    from rtverif.props import c05
+    firsts = set(s[0][0] for s in sig.values())
+    if firsts == set([0]) or len(firsts) != 1:
+        return None
+    if not any(g[0] in ('once', 'historically', 'since') and g[1] is not None for g in lang.walk(f)):
+        return None
+    nsig, start = normalise_signals(sig)
+    names = sorted(nsig)
+    try:
+        exp = ref_dense.evaluate(f, nsig)
+        outs = c05.run_schedule(lang.to_text(f), names, nsig, sched)
+    except Exception:
+        return None
+    cat = [x for o in outs for x in o if x[0] == x[0] and abs(x[0]) != ref_discrete.INF]
+    if not cat:
+        return None
+    if ref_dense.compare(exp, cat, ref_dense.Q(cat[0][0]), ref_dense.Q(cat[-1][0]), ref_discrete.same) is None:
+        return 'D-dense-origin'
+    return None
